@@ -105,7 +105,7 @@ Qed.
 Lemma ModOK_transfer t t' pt e H H' T st tm :
   lookups_kept top t t' (Pexec pt) -> H <= H' -> ModOK top ms t pt H T st tm -> ModOK top ms t' (pt ++ e) H' T st tm.
 Proof.
-  intros Hk HH [Hrel Hchild Hplain Hnostar Hex Hallp Hall Hf5 Himp Hwrap]. split; auto.
+  intros Hk HH [Hrel Hchild Hplain Hnostar Hex Hallp Hall Hf5 Himp Hwrap Hnoflag]. split; auto.
   - intros n Hn Hd. specialize (Hrel n Hn Hd). destruct (lookup n (members st)) as [m|]; auto.
     destruct (lookup n (pns tm)) as [v|]; auto. destruct Hrel as [Hs [h [r [Hh [HR Hv]]]]]. split; auto.
     exists h, r. split; [lia|]. split; auto. eapply Res_mono_P; [apply Pexec_app|]. eapply Res_stable; eauto.
@@ -266,6 +266,8 @@ Proof.
     assert (Hw := ms2_wrap top ms t pt H). unfold WrapOK in Hw.
     edestruct Hw as [T' [n' [Hs HP]]]; eauto using HH1, Hstruct, Hkeys, Hdone, HPmp, Hmp, s1_members, t1_mp, t1_kept, t1_other.
     exists T', n'. split; auto. apply Pexec_app. auto.
+  - intros n mm Hl. simpl in Hl. unfold m2 in Hl.
+    eapply ms2_noflag; eauto using HH1, Hstruct, Hkeys, Hdone, HPmp, Hmp, s1_members, t1_mp, t1_kept, t1_other.
 Qed.
 
 Lemma inv_step : Inv (done ++ [mp]) t2 (pt ++ [(mp, pm)]).
